@@ -355,6 +355,12 @@ let process_trace_full id backend (lines : (char * string) list) : verdict =
 
 let () =
   let args = List.tl (Array.to_list Sys.argv) in
+  let shard_i = ref 0 and shard_n = ref 1 and seen = ref 0 in
+  let args = List.filter (fun a ->
+    if String.length a > 8 && String.sub a 0 8 = "--shard=" then begin
+      (* --shard=i/n: replay only the traces whose index is i modulo n (check runs the n shards in parallel) *)
+      Scanf.sscanf (String.sub a 8 (String.length a - 8)) "%d/%d" (fun i n -> shard_i := i; shard_n := max 1 n);
+      false end else true) args in
   let files = List.filter (fun a ->
     if String.length a > 9 && String.sub a 0 9 = "--ignore=" then begin
       List.iter (function "order" -> ign_order := true | "stamp" -> ign_stamp := true
@@ -371,11 +377,13 @@ let () =
         let line = input_line ic in
         let line = String.trim line in
         if line = "" || line.[0] = '#' then ()
+        else if not !in_trace && line.[0] <> 't' then ()      (* another shard's trace *)
         else begin
           let toks = split_on ' ' line in
           match toks with
           | "trace" :: id :: backend :: _ ->
-              cur_id := id; cur_backend := backend; cur := []; in_trace := true
+              incr seen;
+              cur_id := id; cur_backend := backend; cur := []; in_trace := ((!seen - 1) mod !shard_n = !shard_i)
           | "end" :: _ when !in_trace ->
               in_trace := false;
               incr n_traces;
@@ -393,6 +401,8 @@ let () =
         end
       done
     with End_of_file -> close_in ic)) files;
+  if !shard_n > 1 then
+    Printf.printf "HASHES %s\n" (String.concat " " (Hashtbl.fold (fun k () acc -> string_of_int k :: acc) distinct []));
   let kinds_s = String.concat "," (List.sort compare (Hashtbl.fold (fun k v acc -> Printf.sprintf "\"%s\":%d" k v :: acc) kinds [])) in
   let trans_s = String.concat "," (List.sort compare (Hashtbl.fold (fun k v acc -> Printf.sprintf "\"%s\":%d" k v :: acc) trans [])) in
   Printf.printf "SUMMARY {\"traces\":%d,\"ok\":%d,\"mismatch\":%d,\"labels\":%d,\"obs_compared\":%d,\"snapshots_compared\":%d,\"blocked_sets_compared\":%d,\"distinct_label_sequences\":%d,\"max_labels\":%d,\"label_kinds\":{%s},\"mid_cs_continuations\":%d,\"model_transitions\":{%s}}\n"
